@@ -19,7 +19,7 @@ pub const SPEC: PropSpec = PropSpec {
 	assumptions: &["the pool invariant itself (every pooled buffer empty) is additionally read through hook H3 when the crate is built with the verif cfg"],
 	cases: (50_000_000, 4_000_000_000),
 	secs: (30, 600),
-	required: &["probe_equal", "history:fail-in-value", "history:sink-error", "history:ok", "probes_after_failure"],
+	required: &["probe_equal", "history:fail-in-value", "history:sink-error", "history:ok", "probes_after_failure", "pool_snapshots"],
 	run_case,
 	once: None,
 	panics_are_violations: true,
@@ -175,6 +175,24 @@ pub fn run_case(ctx: &mut Ctx, case_seed: u64) {
 		serde_avro_fast::to_datum_vec(&Present::new(&rs, &v, &mk_pres(allow_slow)), &mut c2).map_err(|e| e.to_string())
 	};
 	let reused = serde_avro_fast::to_datum_vec(&Present::new(&rs, &v, &mk_pres(allow_slow)), &mut cfg).map_err(|e| e.to_string());
+	// pool invariant read where the state lives (hook H3): every pooled buffer is empty
+	#[cfg(ten0_serde_avro_fast_verif)]
+	{
+		let (bufs, supers) = cfg.verif_pool_snapshot();
+		ctx.count("pool_snapshots");
+		ctx.max("pooled_buffers", bufs.len() as u64);
+		ctx.max("pooled_super_buffers", supers.len() as u64);
+		let shape = format!("{}b/{}s/{}cap", bufs.len(), supers.len(), bufs.iter().map(|b| b.1).max().unwrap_or(0).next_power_of_two());
+		ctx.distinct_bytes(&[b"pool-shape", shape.as_bytes()]);
+		if bufs.iter().any(|b| b.0 != 0) || supers.iter().any(|b| b.0 != 0) {
+			ctx.violation(
+				"pool-holds-a-non-empty-buffer-at-a-quiescent-point",
+				case_seed,
+				json!({"schema": rs.spell(None).compact(), "history": history, "pool_buffers_len_cap": bufs, "pool_super_buffers_len_cap": supers}),
+			);
+			return;
+		}
+	}
 	let pdesc = mk_pres(allow_slow).describe();
 	let describe = |extra: serde_json::Value| {
 		json!({"schema": rs.spell(None).compact(), "history": history, "probe_value": v.to_json(), "probe_presentation": pdesc, "allow_slow_sequence_to_bytes": allow_slow, "extra": extra})
